@@ -363,4 +363,68 @@ theorem finalFinSuffices_false : ¬ FinalFinSuffices := by
   revert this
   decide
 
+/-! ### concurrent deliveries: `ProcessBlock` is two steps (`probe`, `finish`) -/
+
+/-- both halves back to back are `ProcessBlock`: the sequential theorems are about schedules in which
+the `ProcessBlock` calls do not overlap. -/
+theorem probe_finish (s : State) (b : Block) : finish (probe s b).1 b (probe s b).2 = processBlock s b := by
+  unfold probe processBlock
+  by_cases h1 : haveBlock s b.id = true
+  · simp [h1, finish]
+  · simp only [h1, Bool.false_eq_true, if_false]
+    by_cases h2 : isKnownOrphan s b.id = true ∧ (!haveBlock s b.parent) = true
+    · simp [h2, finish]
+    · simp only [h2, if_false]
+      by_cases h3 : (!haveBlock (unorphan s b) b.parent) = true
+      · simp [h3, finish]
+      · have hb : haveBlock (unorphan s b) b.id = false := by
+          simp only [haveBlock, unorphan_index] at h1 ⊢; simpa using h1
+        simp [h3, finish, hb]
+
+theorem crun_sequential (s : State) (ds : List Block) :
+    crun ⟨s, []⟩ (sequential ds) = ⟨deliverAll s ds, []⟩ := by
+  induction ds generalizing s with
+  | nil => rfl
+  | cons b bs ih =>
+    have : crun ⟨s, []⟩ (sequential (b :: bs)) = crun ⟨(processBlock s b).1, []⟩ (sequential bs) := by
+      simp only [sequential, crun, List.foldl_cons, cstep, List.nil_append, List.find?_cons, beq_self_eq_true,
+        probe_finish]
+      congr 1
+      simp
+    rw [this, ih]
+    rfl
+
+/-- `order_independent` for schedules in which the two halves of different `ProcessBlock` calls may
+interleave (every block's delivery is started and completed). -/
+def OrderIndependentConcurrent : Prop :=
+  ∀ (g : Block) (T : List Block) (m : Nat) (sched : List Step) (w : Block), Tree g T →
+    (∀ b ∈ T, Step.probe b ∈ sched) → (crun ⟨init 0 m true g, []⟩ sched).pending = [] →
+    (∀ st ∈ sched, ∃ b ∈ T, st = Step.probe b ∨ st = Step.finish b) →
+    w ∈ g :: T → (∀ b ∈ g :: T, b ≠ w → TD (g :: T) b < TD (g :: T) w) → m ≤ w.height →
+    (crun ⟨init 0 m true g, []⟩ sched).s.best = chainTo (g :: T) w.height w
+
+/-- **refuted**: parent 1 and child 2 delivered concurrently.  The child's first half sees no parent
+(plan: pool); the parent is then decided, accepted and its `ProcessOrphans` finds an empty pool;
+only now the child is put into the pool.  Both deliveries have returned, every block was delivered,
+the heaviest block 2 is stranded in the orphan pool with its parent on the chain. -/
+theorem orderIndependentConcurrent_false : ¬ OrderIndependentConcurrent := by
+  intro h
+  have := h wg [⟨1, 0, 1, 1, []⟩, ⟨2, 1, 2, 1, []⟩] 1
+    [.probe ⟨2, 1, 2, 1, []⟩, .probe ⟨1, 0, 1, 1, []⟩, .finish ⟨1, 0, 1, 1, []⟩, .finish ⟨2, 1, 2, 1, []⟩]
+    ⟨2, 1, 2, 1, []⟩ ⟨rfl, by unfold UniqIds; decide, by decide, by decide⟩
+    (by decide) (by decide) (by decide) (by decide) (by decide) (by decide)
+  revert this
+  decide
+
+/-- the stranded state of the witness: block 2 waits in the pool although its parent 1 is indexed
+and on the best chain; delivering it AGAIN takes the "known orphan whose parent exists" path of
+`ProcessBlock` and connects it. -/
+example :
+    let c := crun ⟨init 0 1 true wg, []⟩
+      [.probe ⟨2, 1, 2, 1, []⟩, .probe ⟨1, 0, 1, 1, []⟩, .finish ⟨1, 0, 1, 1, []⟩, .finish ⟨2, 1, 2, 1, []⟩]
+    c.s.orphans.map (·.id) = [2] ∧ c.s.best.map (·.id) = [1, 0] ∧
+    (processBlock c.s ⟨2, 1, 2, 1, []⟩).1.best.map (·.id) = [2, 1, 0] ∧
+    (processBlock c.s ⟨2, 1, 2, 1, []⟩).1.orphans = [] := by
+  decide
+
 end C25X
